@@ -1064,7 +1064,10 @@ func (sb *seqbag) LongestORF(reverse bool) (orf Sequence, err error) {
 
 	// log.Print("Longest ORF found in sequence ", bestseq.Name())
 	// log.Print(string(bestseq.SequenceChar()[beststart:bestend]))
-	orf = NewSequence(name, bestseq.SequenceChar()[beststart:bestend], "")
+	// The ORF is a new sequence: it does not share its residues with the sequence it was found in
+	orfseq := make([]uint8, bestend-beststart)
+	copy(orfseq, bestseq.SequenceChar()[beststart:bestend])
+	orf = NewSequence(name, orfseq, "")
 	return
 }
 
